@@ -63,6 +63,13 @@ def oracle(case, obs):
         if r:
             return {'signature': r[0], 'kind': str(r[1]), 'at': s['tag'], 'context': context(case, obs)}
     f = obs['final']
+    # every registered cleanup ran exactly once on a terminated process (also the ones registered around a failing one), none before
+    for e in obs.get('side', []):
+        if e[0] == 'extra_cleanups':
+            want = 1 if f['state'] in life.TERMINAL else 0
+            for name, n in sorted(e[1].items()):
+                if n != want:
+                    return {'signature': 'cleanup_count', 'kind': '%s ran %d times' % (name, n), 'context': context(case, obs)}
     # a step suspended in the user's own await of an environment future that this schedule never completes cannot return: that is
     # the environment's doing, not the library's (the demand is made whenever every awaited future is completed by the schedule)
     awaited = {a[1] for s in case['prog'].values() for a in s['actions'] if a[0] == 'await'}
